@@ -185,6 +185,9 @@ def ensure_model(timeout=900):
             if x.startswith("model-"):
                 shutil.rmtree(os.path.join(BUILD, x), ignore_errors=True)
         os.makedirs(d, exist_ok=True)
+        ok, mlog = coq_make()
+        if not ok:
+            raise RuntimeError("Coq development does not build, cannot extract the model:\n" + mlog[-3000:])
         with Lock("coq"):
             run(["coqc", "-Q", os.path.join(COQ, "theories"), "PegV", os.path.join(COQ, "theories", "Extract.v")],
                 cwd=d, timeout=timeout, check=True)
